@@ -64,7 +64,7 @@ func errName(v *types.Var) string {
 	return v.Name()
 }
 
-func (fd *fnDecl) effectful() bool { return fd.mutating || len(fd.mutParams) > 0 }
+func (fd *fnDecl) effectful() bool { return fd.mutating || len(fd.mutParams) > 0 || len(fd.fnParams) > 0 }
 
 type closureInfo struct {
 	lit      *ast.FuncLit
@@ -74,6 +74,7 @@ type closureInfo struct {
 	resTys   []string
 	emitted  bool
 	usesFuel bool
+	usesX    bool // the body calls an external function: the helper takes the Ext structure (fnarg.go)
 }
 
 // ---- analysis -------------------------------------------------------------------------------
@@ -125,6 +126,13 @@ func computeMutParams() {
 			if fd.opaque {
 				// an external function may do anything with a reader / parser cursor that it is handed: every
 				// such parameter comes back as a new value
+				if fd.fnParams == nil {
+					// a function-typed parameter: the closure's state comes back (fnarg.go)
+					fd.fnParams = fnParamIdx(fd.obj.Type().(*types.Signature))
+					if len(fd.fnParams) > 0 {
+						changed = true
+					}
+				}
 				if fd.mutParams == nil {
 					sig := fd.obj.Type().(*types.Signature)
 					for i := 0; i < sig.Params().Len(); i++ {
@@ -454,6 +462,9 @@ func (t *fnTrans) effectCall(c *ast.CallExpr) (string, []string, bool) {
 	if qualName(c, info) == "io.ReadFull" && len(c.Args) == 2 {
 		return t.fillCall(c, "readFull", c.Args[0], c.Args[1])
 	}
+	if pre, vals, ok := t.hashEffect(c); ok {
+		return pre, vals, true
+	}
 	if se, ok := c.Fun.(*ast.SelectorExpr); ok && se.Sel.Name == "Read" && len(c.Args) == 1 {
 		if _, isR := t.readerVar(se.X); isR && isReaderType(t.typeOf(se.X)) {
 			return t.fillCall(c, readKind(c, t.typeOf(se.X)), se.X, c.Args[0])
@@ -517,6 +528,9 @@ func (t *fnTrans) effectCall(c *ast.CallExpr) (string, []string, bool) {
 		return "", nil, false
 	}
 	t.checkRecvPath(c)
+	if fd.opaque && len(fd.fnParams) > 0 {
+		return t.opaqueFnCall(c, fd, recv)
+	}
 	if fd.opaque {
 		// an external function that changes an argument (ParseContentInfo advances its *cryptobyte.String)
 		t.useOpaque(c, fd)
@@ -650,6 +664,9 @@ func (t *fnTrans) defineClosure(id *ast.Ident, fl *ast.FuncLit) {
 	if t.fd.usesExt {
 		params = append(params, "(E : Ext)")
 	}
+	if ci.usesX = bodyUsesX(t, fl.Body); ci.usesX {
+		params = append(params, fmt.Sprintf("(X : %s)", extStructName(t.fd.pi.short)))
+	}
 	for _, v := range ci.caps {
 		params = append(params, fmt.Sprintf("(%s : %s)", t.name(v), leanType(fl, v.Type())))
 	}
@@ -697,6 +714,9 @@ func (t *fnTrans) closureCall(ci *closureInfo, c *ast.CallExpr) (string, []strin
 	}
 	if t.fd.usesExt {
 		parts = append(parts, "E")
+	}
+	if ci.usesX {
+		parts = append(parts, "X")
 	}
 	for _, v := range ci.caps {
 		parts = append(parts, t.varRead(v))
@@ -885,23 +905,9 @@ func (t *fnTrans) forStmt(x *ast.ForStmt, after []ast.Stmt, c ctx) string {
 		}
 		return true
 	})
-	// closure calls inside the body touch the closure's captured variables too
-	ast.Inspect(x.Body, func(n ast.Node) bool {
-		if ce, ok := n.(*ast.CallExpr); ok {
-			if id, ok := ce.Fun.(*ast.Ident); ok {
-				if ci, ok := t.closures[t.pi.info.Uses[id]]; ok {
-					for _, v := range ci.muts {
-						mutSet[v] = true
-						used[v] = true
-					}
-					for _, v := range ci.caps {
-						used[v] = true
-					}
-				}
-			}
-		}
-		return true
-	})
+	// closure calls inside the body (and closures handed to an external function there) touch the closure's captured
+	// variables too
+	t.closureTouches(x.Body, mutSet, used)
 	var muts, caps []types.Object
 	for o := range used {
 		if mutSet[o] || (isReaderType(o.Type()) && consumesReader(t.pi.info, x.Body, o)) {
